@@ -128,13 +128,13 @@ pub fn alphabet(quick: bool, huge: bool) -> Vec<String> {
     if huge {
         // sizes whose allocation fails at once under the workers' address-space limit; the merely slow ones
         // (2^20, 2^24 elements) only in the thorough tier, where the watchdog budget allows them
-        for s in ["1000000000000", "2147483648"] {
+        for s in ["1000000000000", "2147483648", "9223372036854775808"] {
             out.push(s.to_string());
         }
         if !quick {
             // every number >= 2^20 is "huge": as an array size / list bound it makes the library materialise that many
             // elements (D6), so these tokens are only ever used inside C06's isolated, memory-limited workers
-            for s in ["1048576", "16777216", "4294967296", "9223372036854775808", "18446744073709551615", "18446744073709551616", "1000000000000000000000000000000"] {
+            for s in ["1048576", "16777216", "4294967296", "18446744073709551615", "18446744073709551616", "1000000000000000000000000000000"] {
                 out.push(s.to_string());
             }
         }
